@@ -690,6 +690,19 @@ def unwrap_result_expr(e):
             return e
 
 
+def through_locals(body, e, limit=4):
+    """`let x = <init>; .. x ..`: the initialiser of a local that is bound exactly once by a plain `let` (local introduced / inlined)."""
+    for _ in range(limit):
+        e0 = H.peel(e, refs=False)
+        if e0.get("k") != "path" or e0["res"].get("r") != "local":
+            return e
+        init = H.let_init_of(body, e0["res"]["id"])
+        if init is None:
+            return e
+        e = init
+    return e
+
+
 def callable_arg(body, e):
     """The argument is a closure literal, a local bound to one (`let f = |..| ..;`), or a function item; what it builds is checked
     where its node literal stands (the type checker fixes its signature)."""
@@ -755,7 +768,7 @@ def r04_5(q, R, spec):
         for f in lit["fields"]:
             fname = f["name"]
             key = "%s.%s" % (lvl, fname)
-            e = f["e"]
+            e = through_locals(body, f["e"])
             if fname == "info" and lvl != "Mappings":
                 root, path = H.place_root(e)
                 ok = root is not None and root[0] == src_id and path == ["info"] and H.peel(e).get("k") == "field"
@@ -1032,7 +1045,7 @@ def diff_levels(q, R, rid, spec, fn):
         for f in lit["fields"]:
             fname = f["name"]
             key = "diff:%s.%s" % (dl, fname)
-            e = f["e"]
+            e = through_locals(body, f["e"])
             c = unwrap_result_expr(e)
             if fname == "info" and dl == "MappingsDiff":
                 continue        # R04.3 diff:top-info-none
